@@ -131,6 +131,13 @@ def fam_index(rng, u, avoid):
     inr = [v for v in pool if 0 <= v < L]
     outr = [v for v in pool if not (0 <= v < L)]
     io = Opnd("i", t, const, traced=traced)
+    # "ssaconst": the index is a local variable initialised from a typed constant (i := uint8(200); x[i]). The Go compiler
+    # accepts it for any value, go/ssa propagates the constant, so the compiler under test sees a CONSTANT index that may be
+    # out of range - also on arrays, where a literal constant index out of range would not compile.
+    ssaconst = (not const) and rng.random() < 0.22 and kind in ("slice", "array", "parray", "string", "bytes")
+    if ssaconst:
+        sv = rng.choice(pool)
+        u.setup.append("i := %s" % lit(t, sv))
     if const:
         cands = [v for v in pool if 0 <= v <= MAXI]
         if kind in ("array", "parray", "cstring", "arrfn"):
@@ -178,10 +185,12 @@ def fam_index(rng, u, avoid):
         u.body.append("%s[%s]++" % (X, I))
         u.body.append("r = %s" % summ)
     K = rng.randint(1, 5)
-    if not const:
+    if not const and not ssaconst:
         u.params.append(("i", t))
     for _ in range(K):
-        if const:
+        if ssaconst:
+            u.reps.append(([], "-" if 0 <= sv < L else "index"))
+        elif const:
             v = io.cval
             u.reps.append(([], "-" if 0 <= v < L else "index"))
         else:
@@ -189,7 +198,7 @@ def fam_index(rng, u, avoid):
             src = inr if (want_in and inr) else (outr if outr else inr)
             v = rng.choice(src)
             u.reps.append(([var(t, v)], "-" if 0 <= v < L else "index"))
-    u.sig = "index/%s/%s/%s/%s/t%d" % (kind, access, t, "c" if const else "v", 1 if traced else 0)
+    u.sig = "index/%s/%s/%s/%s/t%d" % (kind, access, t, "c" if const else ("s" if ssaconst else "v"), 1 if traced else 0)
     u.desc = "index %s of %s len %d (%s, %s index %s)" % (access, kind, L, t, "const" if const else "var", I)
 
 
